@@ -154,6 +154,22 @@ def corpus(seed, n):
                 b = b.replace("a: T", "#[educe(Into(u8))] a: T").replace("V(T)", "V(#[educe(Into(u8))] T)").replace("x: T", "#[educe(Into(u8))] x: T")
             cases.append(("h%d" % hk, Hand([t]), "#[derive(Educe)]\n#[educe(%s)]\n%s\n" % (spelled, b)))
             hk += 1
+    # one trait educed alone, a field attribute under the name of every OTHER trait: the all-features build refuses it
+    # ("the trait is not used"), a build in which that other trait is disabled has to refuse it as well
+    fattrs = {"Debug": ["Debug(ignore)", "Debug = false", "Debug(name = x)"], "Clone": ["Clone(method(f))"], "Copy": ["Copy"],
+              "PartialEq": ["PartialEq(ignore)", "PartialEq = false"], "Eq": ["Eq(ignore)", "Eq = false"],
+              "PartialOrd": ["PartialOrd(ignore)", "PartialOrd(rank = 0)", "PartialOrd = false", "PartialOrd(method(f))"],
+              "Ord": ["Ord(ignore)", "Ord(rank = 0)", "Ord = false", "Ord(method(f))"], "Hash": ["Hash(ignore)", "Hash = false"],
+              "Default": ["Default = 1", "Default"], "Deref": ["Deref"], "DerefMut": ["DerefMut"], "Into": ["Into(u8)"]}
+    fk = 0
+    for t in G.ALL_TRAITS:
+        for u in G.ALL_TRAITS:
+            if u == t:
+                continue
+            for a in fattrs[u]:
+                for body in ("struct S { #[educe(%s)] a: u8 }", "enum E { V(#[educe(%s)] u8) }", "enum E { #[educe(%s)] V { a: u8 } }"):
+                    cases.append(("f%d" % fk, Hand([t]), "#[derive(Educe)]\n#[educe(%s)]\n%s\n" % ({"Into": "Into(u8)"}.get(t, t), body % a)))
+                    fk += 1
     # requests that must be refused (C13's generator): a subset build has to refuse them as well
     from . import c13
     for k in range(n // 3):
